@@ -67,9 +67,10 @@ func bound(tier string) string {
 			n, n*n, len(coreTokens))
 	}
 	return fmt.Sprintf("%d tokens: singles x {top,list} x 2 trailers (with every pair of cuts); all %d ordered pairs x {top,list} x separators {space, none, newline, line comment, block comment}; "+
-		"all pairs x top x *read-base* 16 and x float formats {single,long}; per text: whole string, bytes, ReadOne loop, read-from-string per form, cl:read on 2 stream kinds, "+
-		"ReadStream/ReadStream(one)/Push/Each at EVERY single cut, every fixed chunk size, every truncation that ends inside a delimited construct. "+
-		"Cut from the design: vector/quoted/nested contexts, tab/CRLF separators, bases 2/8/36, pairs of cuts for two-token texts and triples are thorough only",
+		"all pairs x {vector, quoted list, nested list} x space; all pairs x top x *read-base* 16 and x float formats {single,long}; single tokens x *read-base* {2,8,36} and short-float; "+
+		"per text: whole string, bytes, ReadOne loop, read-from-string (2 modes) per form, cl:read on 2 stream kinds, "+
+		"ReadStream/ReadStream(one)/Push/Each in one piece and at EVERY single cut (+ last piece with io.EOF), every fixed chunk size, every truncation that ends inside a delimited construct. "+
+		"Cut from the design: tab/CRLF separators, leading white space, pairs of cuts for two-token texts, the empty-read variant, bases 2/8/36 on pairs and triples are thorough only",
 		n, n*n)
 }
 
@@ -128,6 +129,17 @@ func enumerate(tier string, emit func(string)) {
 	for _, ctx := range ctxs[1:] {
 		emit(mkSpec(ctx, 0, 0, defaultCfg, single, nil, nil))
 	}
+	// quick: the other three contexts with the plain separator only
+	if !thorough {
+		for _, ctx := range []int{2, 3, 4} {
+			for i := 0; i < nt; i++ {
+				emit(mkSpec(ctx, 0, 0, defaultCfg, single, []int{i}, nil))
+				for j := 0; j < nt; j++ {
+					emit(mkSpec(ctx, 0, 0, defaultCfg, mode, []int{i, j}, []int{0}))
+				}
+			}
+		}
+	}
 	// pairs
 	for _, ctx := range ctxs {
 		for _, s := range sepIdx {
@@ -154,6 +166,14 @@ func enumerate(tier string, emit func(string)) {
 	}
 	for _, f := range floatFormats[tier] {
 		cfgs = append(cfgs, cfg{base: 10, ff: f})
+	}
+	if !thorough {
+		// quick: the remaining bases and float format on single tokens only
+		for _, c := range []cfg{{2, "double-float"}, {8, "double-float"}, {36, "double-float"}, {10, "short-float"}} {
+			for i := 0; i < nt; i++ {
+				emit(mkSpec(0, 0, 0, c, single, []int{i}, nil))
+			}
+		}
 	}
 	for _, c := range cfgs {
 		for _, ctx := range cctx {
